@@ -196,10 +196,12 @@ CHECKS = {
         "key length vs digest size) which are evaluated over hashlib's plain hash constructors; SaslPrep.tla decides RFC 4013 over all class strings "
         "up to length 3/4 and over every class string a single code point normalises to. passlib's built-in md4 object, ScryptEngine/scrypt(), "
         "des_encrypt_block/int_block/expand/shrink, compile_hmac (single and multipart), pbkdf1, pbkdf2_hmac and saslprep are compared with those values; "
-        "the bcrypt core is decided single-valued across passlib's engine, the bcrypt C library and libxcrypt by Trace_Func.tla.",
+        "Blowfish.tla (Schneier's cipher and Provos/Mazieres' EksBlowfish setup, its tables derived from pi by the harness; self-tested on the all-zero vector and "
+        "against the bcrypt C library) gives plain Blowfish blocks and whole bcrypt cores (costs 4..6, keys 0..100 bytes) compared with BlowfishEngine and raw_bcrypt; in addition "
+        "the bcrypt core is decided single-valued across passlib's engine, the bcrypt C library and libxcrypt over a wider sweep by Trace_Func.tla.",
    note="Trusted: TLC, the transcriptions (each validated against an independent provider before use), hashlib/OpenSSL, libxcrypt, bcrypt-C, "
-        "Python's stringprep/unicodedata tables. Blowfish is not transcribed into TLA+ (cross-provider only). NFKC is abstract in SaslPrep.tla.",
-   technique="TLA+ transcriptions of the standards (Md4, Salsa, Des, Hmac, SaslPrep) evaluated by TLC as oracle + replay on the built-in primitives; Trace_Func single-valuedness for bcrypt"),
+        "Python's stringprep/unicodedata tables. NFKC is abstract in SaslPrep.tla.",
+   technique="TLA+ transcriptions of the standards (Md4, Salsa, Des, Blowfish, Hmac, SaslPrep) evaluated by TLC as oracle + replay on the built-in primitives; Trace_Func single-valuedness for bcrypt"),
 }
 PENDING = {}
 props = [json.loads(l) for l in open(os.path.join(HERE, "properties.jsonl"))]
